@@ -457,3 +457,12 @@ package cisco
 // kind at hand - a name found free for another kind proves nothing).
 //vc:func (*State).generateNamesForTransfer$1
 //vc:  ensures[C01,C02] @generatedNameFreeOnDevice !(c.name in devNames)
+
+// simpleObjEqual: two simple objects (pools, transform-sets, ipsec proposals)
+// count as equal only if their toplevel lines are equal and they have the same
+// number of sub-commands (the code compares the sorted lists of sub-commands
+// as a whole; a one-sided subset test would take a device object with extra
+// lines for the target object).
+//vc:func simpleObjEqual
+//vc:  hypothesis[C01] len(al) > 0 && len(bl) > 0 && al[0] != nil && bl[0] != nil
+//vc:  ensures[C01,C02] @equalObjectsHaveEqualSize result ==> al[0].parsed == bl[0].parsed && len(al[0].sub) == len(bl[0].sub)
